@@ -24,6 +24,7 @@ type CEnv struct {
 	old   *State
 	pre   *State // loop invariants: the state at loop entry (before the loop's havoc)
 	qstack   []Term // bound variables of the enclosing quantifiers (typing facts about terms over them are closed)
+	iterKey  string // loop invariants of a range over a string: the ghost count of code points already produced
 	rangeKey string // loop invariants of a range over a map: the ghost set of keys already visited
 	iter  *State // step clauses: the state at the start of the current iteration
 	pkg   string
@@ -606,6 +607,12 @@ func (c *CEnv) evalCall(n *CCall) (TT, error) {
 			parts = append(parts, T(SBool, "(forall ((mf_r Int)) (! (=> %s (= (select %s mf_r) (select %s mf_r))) :pattern ((select %s mf_r))))", cond, hc.S, hb.S, hc.S))
 		}
 		return TT{and(parts...), nil}, nil
+	case "iterno":
+		// iterno(): number of code points already produced by the string range of this loop
+		if c.iterKey == "" {
+			return TT{}, fmt.Errorf("iterno() is only meaningful in invariants of a range over a string")
+		}
+		return TT{e.heapGet(c.cur, c.iterKey), nil}, nil
 	case "visited":
 		// visited(k): key k has already been produced by the map range of this loop
 		if err := argN(1); err != nil {
@@ -684,7 +691,7 @@ func (c *CEnv) evalCall(n *CCall) (TT, error) {
 		}
 		bx := e.box(x.T, x.Term)
 		e.assume(tTrue, eq(T(SInt, "(tag %s)", bx.S), e.typeID(x.T)))
-		e.assume(tTrue, eq(e.unbox(x.T, bx), x.Term))
+		e.assume(tTrue, same(e.unbox(x.T, bx), x.Term))
 		e.assume(tTrue, not(eq(bx, Term{"nil_iface", SIface})))
 		return TT{bx, nil}, nil
 	case "fresh":
@@ -861,6 +868,36 @@ func (c *CEnv) evalCall(n *CCall) (TT, error) {
 			return TT{T(SBool, "(fp.isInfinite %s)", x.S), nil}, nil
 		}
 		return TT{T(SBool, "(and (not (fp.isNaN %s)) (not (fp.isInfinite %s)))", x.S, x.S), nil}, nil
+	case "samef":
+		// samef(a, b): the same double, bit for bit up to NaN payload (== on floats is IEEE comparison: -0.0 == 0.0)
+		a, err := c.eval(n.Args[0])
+		if err != nil {
+			return TT{}, err
+		}
+		b, err := c.eval(n.Args[1])
+		if err != nil {
+			return TT{}, err
+		}
+		if a.Sort != SF64 || b.Sort != SF64 {
+			return TT{}, fmt.Errorf("samef() needs two floats")
+		}
+		return TT{same(a.Term, b.Term), nil}, nil
+	case "floorf", "absf", "isnegf":
+		// IEEE operations on doubles: round towards minus infinity to an integral value, absolute value, sign bit
+		x, err := c.eval(n.Args[0])
+		if err != nil {
+			return TT{}, err
+		}
+		if x.Sort != SF64 {
+			return TT{}, fmt.Errorf("%s() needs a float", n.Fn)
+		}
+		switch n.Fn {
+		case "floorf":
+			return TT{T(SF64, "(fp.roundToIntegral RTN %s)", x.S), types.Typ[types.Float64]}, nil
+		case "absf":
+			return TT{T(SF64, "(fp.abs %s)", x.S), types.Typ[types.Float64]}, nil
+		}
+		return TT{T(SBool, "(fp.isNegative %s)", x.S), nil}, nil
 	case "truncf":
 		// truncation of a finite float towards zero, as an unbounded integer
 		x, err := c.eval(n.Args[0])
